@@ -3356,7 +3356,7 @@ int32_t sslGetCipherSpecListExt(const ssl_t *ssl,
     int32 ignored;
 
     p = c; /* assigned always to silence gcc 4.7 */
-    end = c + len;
+    end = (c != NULL) ? c + len : NULL; /* length-only query: NULL + 0 is undefined in C */
 
     if (encodeList)
     {
